@@ -75,7 +75,7 @@ impl Check for C09 {
         };
         let nwriters = g.range(0, 3);
         let writers: Vec<Value> = (0..nwriters)
-            .map(|_| json!({"api": *g.pick(&["direct", "direct", "queued", "control"]), "len": *g.pick(&[0u64, 1, 100, 1000, 8192, 40_000]), "gap_us": *g.pick(&[0u64, 10, 1_000, 100_000])}))
+            .map(|_| json!({"api": if side == "client" { *g.pick(&["direct", "direct", "queued", "control", "open"]) } else { *g.pick(&["direct", "direct", "queued", "control"]) }, "len": *g.pick(&[0u64, 1, 100, 1000, 8192, 40_000]), "gap_us": *g.pick(&[0u64, 10, 1_000, 100_000])}))
             .collect();
         let inbound: Vec<Value> = (0..g.range(0, 6)).map(|_| json!({"k": *g.pick(&["psh", "psh", "waste", "heart"]), "len": g.range(0, 700)})).collect();
         json!({
@@ -302,6 +302,7 @@ impl Check for C09 {
                 let api: &'static str = match w["api"].as_str().unwrap_or("direct") {
                     "queued" => "queued",
                     "control" => "control",
+                    "open" if is_client => "open",
                     _ => "direct",
                 };
                 let len = w["len"].as_u64().unwrap_or(0) as usize;
@@ -327,6 +328,8 @@ impl Check for C09 {
                                 None => false,
                             },
                             "control" => sut2.write_control_frame(Frame::control(Command::HeartRequest, 0)).await.is_ok(),
+                            // a concurrent stream-open: its SYN write can be the write that meets the fault
+                            "open" => round < 40 && sut2.open_stream().await.is_ok(),
                             _ => sut2.write_data_frame(sid, data).await.is_ok(),
                         };
                         finish(&ops2, i, ok);
@@ -517,7 +520,7 @@ impl Check for C09 {
         out
     }
     fn rule(&self) -> &'static str {
-        "one case = a real client or server Session with 0-4 blocked stream readers, 0-3 pending opens (client), 0-3 concurrently writing tasks (direct / queued / control), fresh (buffering) or established, against a scripted peer; exactly one termination cause (clean EOF, reset, unexpected-EOF error, write error, flush error at a seeded byte offset inside or between frames; Alert frame; owner close() at a seeded instant; heartbeat give-up) with shutdown completing / failing / hanging; oracle at t0+2s and t0+4s of virtual time; non-trivial = the planned cause actually fired AND at least one reader, pending open or write operation existed; distinct = distinct (plan hash, poll-order fingerprint)"
+        "one case = a real client or server Session with 0-4 blocked stream readers, 0-3 pending opens (client), 0-3 concurrently working tasks (direct / queued / control writes, stream opens on the client), fresh (buffering) or established, against a scripted peer that drains, drains slowly, or (every cause but Alert) stops reading after a seeded number of bytes so that a write is parked inside the transport when the session dies; exactly one termination cause (clean EOF, reset, unexpected-EOF error, write error, flush error at a seeded byte offset inside or between frames; Alert frame; owner close() at a seeded instant; heartbeat give-up) with shutdown completing / failing / hanging; oracle at t0+2s and t0+4s of virtual time; non-trivial = the planned cause actually fired AND at least one reader, pending open or write operation existed; distinct = distinct (plan hash, poll-order fingerprint)"
     }
     fn real_components(&self) -> Vec<&'static str> {
         vec!["Session (client or server): recv_loop, handle_frame, write paths, close, handle_io_error, heartbeat task, process_stream_data", "Stream / StreamReader", "PaddingFactory", "FrameCodec"]
